@@ -20,10 +20,10 @@ func init() { runners["epochs"] = runEpochs }
 type recHooks struct{ log []string }
 
 func (h *recHooks) AfterEpochEnd(_ sdk.Context, id string, n uint64) {
-	h.log = append(h.log, fmt.Sprintf("A:%s:%d", id, n))
+	h.log = append(h.log, fmt.Sprintf("A:%s:%d", encID(id), n))
 }
 func (h *recHooks) BeforeEpochStart(_ sdk.Context, id string, n uint64) {
-	h.log = append(h.log, fmt.Sprintf("B:%s:%d", id, n))
+	h.log = append(h.log, fmt.Sprintf("B:%s:%d", encID(id), n))
 }
 
 // time encoding: nanoseconds since base; the zero time.Time is encoded as 0, so real times are kept ≥ 1.
@@ -49,16 +49,20 @@ func renderEpochs(infos []epochstypes.EpochInfo) string {
 		if e.EpochCountingStarted {
 			st = "1"
 		}
-		parts = append(parts, fmt.Sprintf("%s,%d,%d,%d,%d,%s,%d", e.Identifier, encT(e.StartTime), int64(e.Duration),
+		parts = append(parts, fmt.Sprintf("%s,%d,%d,%d,%d,%s,%d", encID(e.Identifier), encT(e.StartTime), int64(e.Duration),
 			e.CurrentEpoch, encT(e.CurrentEpochStartTime), st, e.CurrentEpochStartHeight))
 	}
 	return strings.Join(parts, ";")
 }
 
+// encID: identifiers travel as one token of the line protocol
+func encID(id string) string { return strings.ReplaceAll(id, " ", "!") } // "!" sorts where the space does: below every letter and digit
+
 func runEpochs(r *hx.R, n int, w *hx.W, _ []string) error {
 	nibiru, ctx0 := testapp.NewNibiruTestAppAndContext()
 	k := nibiru.EpochsKeeper
-	ids := []string{"a", "b", "day", "week", "c15", "z"}
+	// identifiers with surrounding or inner whitespace are legal (only a blank one is refused) and are keys of their own
+	ids := []string{"a", "b", "day", "week", "c15", "z", " day", "week ", " a ", "30 min"}
 	durs := []int64{1, 5, 10, 60, 1000, 86400, -3, 7}
 	for seq := 0; seq < n; seq++ {
 		ctx, _ := ctx0.CacheContext()
@@ -80,6 +84,8 @@ func runEpochs(r *hx.R, n int, w *hx.W, _ []string) error {
 				id := ids[r.Pick(len(ids))]
 				if r.Chance(1, 15) {
 					id = ""
+				} else if r.Chance(1, 30) {
+					id = "  " // blank but not empty: AddEpochInfo accepts it (EpochInfo.Validate refuses only the empty string)
 				}
 				dur := durs[r.Pick(len(durs))] * 1_000_000_000
 				if r.Chance(1, 15) {
@@ -109,7 +115,7 @@ func runEpochs(r *hx.R, n int, w *hx.W, _ []string) error {
 				info := epochstypes.EpochInfo{Identifier: id, StartTime: decT(start), Duration: time.Duration(dur),
 					CurrentEpoch: cur, CurrentEpochStartTime: decT(curStart), EpochCountingStarted: started,
 					CurrentEpochStartHeight: ch}
-				idTok := id
+				idTok := encID(id)
 				if id == "" {
 					idTok = "_"
 				}
